@@ -946,6 +946,13 @@ func init() {
 	})
 	// C11: timestamps after re-open and DropAll
 	register("C11", func(c *Ctx) error {
+		// part 2 first (c11wal.go): crash + re-open with WALs in arbitrary version order; its
+		// cases have their own Coq entry point, so they get their own shards
+		if err := runC11Wal(c, 30+c.N/2); err != nil {
+			return err
+		}
+		c.closeShard()
+		c.N += c.nCases
 		return runReopenProfile(c, func(i int) *rprofile {
 			p := &rprofile{profile: profile{name: "next-ts", wBegin: 5, wModify: 12, wGet: 3, wIter: 1, wCommit: 10, wDiscard: 1, wFlush: 4, wCompact: 4, wL0L0: 1, wBatch: 2, wMaxVersion: 2,
 				nOps: 40 + c.Rng.Intn(40), keys: keySetA[:2+c.Rng.Intn(5)], allVersions: true, expiry: true, discardBit: true,
